@@ -19,6 +19,15 @@ Two kinds of cases (encodings in coq/Model/OpsC06.v):
       conversation runs (split: 0 one line per read, 1 one byte per read, 2 two lines per
       read, 3 everything in one read after the first challenge-free prefix).
 
+  ['m', [cookie ids already in the file], [event ...]]
+      several server connections of one bus sharing one keyring directory; every event is
+      ['S', c] (connection c starts a DBUS_COOKIE_SHA1 exchange; its client then looks the
+      announced id up in the keyring file as ClientAuthenticator._authGetDBusCookie does:
+      first line with that id), ['F', c, kind] (the client answers: right = with the cookie
+      it read, wrongcookie), ['X', c] (CANCEL), ['D', c] (the connection is dropped).
+      Compared with Model/CookieStore.v after every event: the ids in the file and the
+      mechanism's verdict.
+
 Observation: the lines written (ERROR lines without their explanatory text), the verdicts
 the mechanisms returned (ghost events: they let the specification be run on the same
 outcomes), the first loseConnection, connectionAuthenticated, an exception escaping
@@ -545,6 +554,91 @@ class ConcreteRun:
         return im.rec.obs
 
 
+class MultiRun:
+    """several connections of one bus, one keyring; see the 'm' case kind"""
+
+    def __init__(self, im, case, keyring):
+        self.im = im
+        self.case = case
+        self.base = ConcreteRun(im, ['c', 0, 0, [], [], 0], keyring)
+        self.obs = []            # per event: [ids in the file, verdict or None]
+        self.model_events = []
+        self.sha = []
+        self.expect_ok = []      # indices of events that are conforming answers of a live exchange
+
+    def client_lookup(self, cid):
+        """ClientAuthenticator._authGetDBusCookie: the first line whose id matches"""
+        try:
+            with open(self.base.cookie_file(), 'rb') as f:
+                for line in f:
+                    try:
+                        k_id, k_time, k_cookie = line.split()
+                        if k_id == cid:
+                            return k_cookie
+                    except ValueError:
+                        pass
+        except OSError:
+            pass
+        return None
+
+    def run(self):
+        im, base = self.im, self.base
+        _, store0, events = self.case
+        im.auth.BusAuthenticator.authenticators = base.classes()
+        os.mkdir(base.keyring, 0o700)
+        self.entries0 = []
+        if store0:
+            now = str(int(time.time())).encode('ascii')
+            with open(base.cookie_file(), 'wb') as f:
+                for i in store0:
+                    ck = (b'%02x' % (i % 256)) * 24
+                    self.entries0.append([i, ck])
+                    f.write(b'%d %s %s\n' % (i, now, ck))
+        user = user_candidates()[0].hex().encode('ascii')
+        conns = {}
+        for n, ev in enumerate(events):
+            kind, c = ev[0], ev[1]
+            verdict = None
+            nv = len(base.verdicts)
+            if kind == 'S':
+                p = im.connect()
+                conns[c] = {'p': p, 'rec': im.rec, 'live': False}
+                im.deliver(p, b'\0AUTH DBUS_COOKIE_SHA1 ' + user + b'\r\n')
+                o = im.rec.obs
+                if o and o[-1][0] == 0 and o[-1][1].startswith(b'DATA '):
+                    ctx_, cid, sc = bytes.fromhex(o[-1][1][5:].decode('ascii')).split()
+                    conns[c].update(live=True, cid=cid, sc=sc, cookie=self.client_lookup(cid),
+                                    server_cookie=base.cookies[-1])
+                self.model_events.append([0, c])
+            elif kind == 'F':
+                k = conns[c]
+                im.rec = k['rec']
+                cc = b'c%d' % c
+                cookie = k['cookie'] if ev[2] == 'right' and k['cookie'] is not None else b'00'
+                resp = cc + b' ' + hashlib.sha1(k['sc'] + b':' + cc + b':' + cookie).hexdigest().encode('ascii')
+                tohash = k['sc'] + b':' + cc + b':' + k['server_cookie']
+                self.sha.append([tohash, hashlib.sha1(tohash).hexdigest().encode('ascii')])
+                if ev[2] == 'right':
+                    self.expect_ok.append(n)
+                im.deliver(k['p'], b'DATA ' + resp.hex().encode('ascii') + b'\r\n')
+                k['live'] = False
+                if len(base.verdicts) > nv:
+                    verdict = base.verdicts[-1]
+                self.model_events.append([1, c, resp])
+            elif kind == 'X':
+                k = conns[c]
+                im.rec = k['rec']
+                im.deliver(k['p'], b'CANCEL\r\n')
+                k['live'] = False
+                self.model_events.append([2, c])
+            else:
+                conns[c]['live'] = False
+                self.model_events.append([3, c])
+            self.obs.append([base.store(), verdict])
+        self.crashed = any(([4] in k['rec'].obs) for k in conns.values())
+        return self.obs
+
+
 # --------------------------------------------------------------------------
 def evaluate(ctx, cases, res):
     im = Impl()
@@ -556,7 +650,15 @@ def evaluate(ctx, cases, res):
         second = []          # concrete cases: (index, spec request line)
         runs = {}
         for n, case in enumerate(cases):
-            if case[0] == 'o':
+            if case[0] == 'm':
+                run = MultiRun(im, case, os.path.join(tmp, 'k%d' % n))
+                obs = run.run()
+                runs[n] = run
+                lines.append('(6 2 0 %s %s %s %s %s)' % (
+                    common.dump(run.base.cookies), common.dump(run.base.chals), common.dump(run.sha),
+                    common.dump(run.entries0), common.dump(run.model_events)))
+                shutil.rmtree(run.base.keyring, ignore_errors=True)
+            elif case[0] == 'o':
                 obs = im.run_oracle_case(case)
                 lines.append('(6 0 %s %s %s %s %s)' % (
                     common.dump(FIX), common.dump(case[1]), common.dump(GUID),
@@ -580,6 +682,21 @@ def evaluate(ctx, cases, res):
         outs = common.run_model(lines + [l for _, l in second])
         spec_for = {n: outs[len(lines) + k][1] for k, (n, _) in enumerate(second)}
         for n, case in enumerate(cases):
+            if case[0] == 'm':
+                run = runs[n]
+                impl = [[ids, v] for ids, v in impl_obs[n]]
+                model = [[ids, (v[0] if v else None)] for ids, v in outs[n]]
+                stats['overlapping'] = stats.get('overlapping', 0) + 1
+                res.count(case, nontrivial=len(case[2]) >= 2)
+                if impl != model or run.crashed:
+                    res.disagree(case, [impl, run.crashed], [model, False])
+                for k in run.expect_ok:
+                    if impl[k][1] != [0]:
+                        res.violate(case, 'event %d: a conforming client that read the cookie for the id it was given '
+                                    'was not accepted by DBUS_COOKIE_SHA1 while other exchanges overlap (verdict %r, ids in '
+                                    'the file after each event %r)' % (k, impl[k][1], [i for i, _ in impl]),
+                                    'conforming-client-not-accepted:DBUS_COOKIE_SHA1:overlapping')
+                continue
             obs = canon_obs(impl_obs[n])
             if case[0] == 'o':
                 model, spec = canon_obs(outs[n][0]), outs[n][1]
@@ -771,6 +888,35 @@ def gen_concrete(ctx, count):
                acts, rng.randrange(0, 4), None]
 
 
+def gen_multi(max_exchanges, kinds, stores=([], [5])):
+    """every interleaving of start / finish / cancel / drop of up to max_exchanges cookie exchanges, each on
+    its own connection (connections start in index order), on an empty and on a non-empty keyring"""
+    def rec(seq, state):
+        if seq:
+            yield list(seq)
+        started = [c for c in range(max_exchanges) if state[c] > 0]
+        nxt = len(started)
+        if nxt < max_exchanges:
+            state[nxt] = 1
+            yield from rec(seq + [['S', nxt]], state)
+            state[nxt] = 0
+        for c in range(max_exchanges):
+            if state[c] == 1:
+                state[c] = 2
+                for k in kinds:
+                    yield from rec(seq + [['F', c, k]], state)
+                yield from rec(seq + [['X', c]], state)
+                yield from rec(seq + [['D', c]], state)
+                state[c] = 1
+    for seq in rec([], [0] * max_exchanges):
+        # a story is worth running when it ends with an answer (the oracle looks at answers) or when
+        # nothing but answers could follow (every connection started; the file's final content is compared)
+        starts = sum(1 for e in seq if e[0] == 'S')
+        if seq[-1][0] == 'F' or (starts == max_exchanges and seq[-1][0] != 'S'):
+            for store0 in stores:
+                yield ['m', list(store0), seq]
+
+
 def run(ctx, res):
     q = ctx.quick
     res.rule = (
@@ -780,7 +926,8 @@ def run(ctx, res):
         'sequence of <= %d lines x constant scripts (rotation) - long enough to cross the rejection limit; random conversations '
         'of up to 40 lines with odd lines, mechanism lists, random cuts; first byte / 16 KiB limit / reads after close; the real '
         'EXTERNAL, DBUS_COOKIE_SHA1 (temporary keyring) and ANONYMOUS mechanisms with faked credentials, conforming clients and '
-        'random conversations.  Non-trivial: at least two observed events'
+        'random conversations; several connections sharing one keyring: every interleaving of start / finish / cancel / drop of '
+        'up to 3 overlapping DBUS_COOKIE_SHA1 exchanges with clients that look their cookie up by id.  Non-trivial: at least two observed events'
         % ([a.decode() for a in ALPHABET], 3 if q else 4, 4 if q else 5, [a.decode() for a in SMALL], 5 if q else 6))
     batches = [
         ('exhaustive-14-all-scripts', gen_exhaustive(ALPHABET, range(0, 4 if q else 5), [0, 1, 2])),
@@ -789,6 +936,7 @@ def run(ctx, res):
         ('framing', gen_framing(ctx)),
         ('random', gen_random(ctx, ctx.n(3000, 60000), 40)),
         ('concrete', gen_concrete(ctx, ctx.n(600, 12000))),
+        ('overlapping-cookie-exchanges', gen_multi(3, ['right'], ([],)) if q else gen_multi(3, ['right', 'wrongcookie'])),
     ]
     dist = {}
     for name, g in batches:
